@@ -7,6 +7,7 @@
 import KcacheModel.Filter
 import KcacheModel.Cache
 import KcacheModel.FSub
+import KcacheModel.Extracted.Facts
 namespace KC
 
 def oVer (o : Obj) : Option Int := Atoi.atoi o.rv
@@ -25,8 +26,8 @@ def feqStd (f g : Filter) : Bool := filtersEqual (some f) (some g)
 
 abbrev FS := FSub Key Obj Filter
 
-/-- `EventBufsiz` -/
-def evCap : Nat := 100
+/-- `EventBufsiz`, read off subscription.go by kextract on every run -/
+def evCap : Nat := Extracted.Facts.eventBufsiz
 
 structure SNode where
   kind : String            -- root sub subf subd clone clonef cloned mon
